@@ -24,15 +24,11 @@ deriving DecidableEq, Repr
 
 abbrev Plan := Nat → Act
 
-/-- what the environment creates when the destination "appears" -/
+/-- what the environment's file holds when the destination "appears".  The inode exists from the
+    start, unlinked (inode numbers are arbitrary, so this is the same as allocating it later) -/
 def envBytes : Bytes := [79, 84, 72, 69, 82]
 def envMode : Nat := 0o640
-
-def envCreate (fs : FS) : FS :=
-  match fs.dir.dest with
-  | some _ => fs
-  | none => { (fs.setDir { fs.dir with dest := some fs.inodes.length }) with
-              inodes := fs.inodes ++ [⟨envBytes, [], envMode⟩] }
+def envInode : Inode := ⟨envBytes, [], envMode⟩
 
 inductive Outcome where
   | ok
@@ -45,66 +41,84 @@ structure M where
   fs : FS
   n : Nat                    -- instrumented calls made so far
   tr : List Ev               -- successful events so far, oldest first
-  created : Bool             -- os.open of the part file succeeded
-  published : Bool           -- rename / link onto the destination succeeded
-  cleanupFaulted : Bool      -- the plan made a cleanup unlink fail
-  envIno : Option Nat        -- the inode created by the environment, if it did create one
+  errs : Nat                 -- ghost: calls that reported an error (ENOENT from os.stat is not one)
+  cleanupFaulted : Bool      -- ghost: the plan made a cleanup unlink fail
+  envIno : Nat               -- constant: the environment's inode
+  envDone : Bool             -- ghost: the environment did create the destination
 deriving Repr
+
+/-- ghost: the destination has been published by this save -/
+def M.published (m : M) : Bool := publishes m.tr
+
+def isOpenPart : Ev → Bool
+  | .openPart _ _ _ => true
+  | _ => false
+
+/-- ghost: this save created a part file -/
+def M.created (m : M) : Bool := m.tr.any isOpenPart
 
 /-- the environment's move just before a call -/
 def M.env (m : M) (a : Act) : M :=
   if a = .appear ∧ m.fs.dir.dest = none then
-    { m with fs := envCreate m.fs, envIno := some m.fs.inodes.length }
+    { m with fs := m.fs.setDir { m.fs.dir with dest := some m.envIno }, envDone := true }
   else m
 
-/-- one instrumented call: `op` is the kernel's behaviour, `ev` the event recorded on success -/
-def call (plan : Plan) (m : M) (op : FS → Except Errno FS) (ev : Ev) : Option Errno × M :=
+/-- perform a call that the plan lets through -/
+def exe (m : M) (ev : Ev) : Option Errno × M :=
+  match m.fs.step ev with
+  | .error e => (some e, { m with n := m.n + 1, errs := m.errs + 1 })
+  | .ok fs' => (none, { m with fs := fs', n := m.n + 1, tr := m.tr ++ [ev] })
+
+/-- one instrumented call: the kernel's behaviour is `FS.step ev`; `ev` is recorded on success -/
+def call (plan : Plan) (m : M) (ev : Ev) : Option Errno × M :=
   match plan m.n with
-  | .fail e => (some e, { m with n := m.n + 1 })
-  | a =>
-    match op (m.env a).fs with
-    | .error e => (some e, { m.env a with n := m.n + 1 })
-    | .ok fs' => (none, { m.env a with fs := fs', n := m.n + 1, tr := m.tr ++ [ev] })
+  | .fail e => (some e, { m with n := m.n + 1, errs := m.errs + 1 })
+  | .pass => exe m ev
+  | .appear => exe (m.env .appear) ev
 
 /-- `file.close()`: when it is made to fail the descriptor is closed all the same -/
 def callClose (plan : Plan) (m : M) : Option Errno × M :=
   match plan m.n with
   | .fail e =>
-    match m.fs.close with
-    | .ok fs' => (some e, { m with fs := fs', n := m.n + 1, tr := m.tr ++ [Ev.close] })
-    | .error _ => (some e, { m with n := m.n + 1 })
-  | _ => call plan m FS.close .close
+    match m.fs.step .close with
+    | .ok fs' => (some e, { m with fs := fs', n := m.n + 1, errs := m.errs + 1, tr := m.tr ++ [Ev.close] })
+    | .error _ => (some e, { m with n := m.n + 1, errs := m.errs + 1 })
+  | .pass => exe m .close
+  | .appear => exe (m.env .appear) .close
 
 /-- `os.stat(dest)`: `ok (some mode)`, `ok none` for ENOENT, `error e` otherwise -/
 def callStat (plan : Plan) (m : M) : Except Errno (Option Nat) × M :=
   match plan m.n with
-  | .fail e => (if e = ENOENT then .ok none else .error e, { m with n := m.n + 1 })
-  | a => (.ok (m.env a).fs.destMode, { m.env a with n := m.n + 1 })
+  | .fail e =>
+    if e = ENOENT then (.ok none, { m with n := m.n + 1 })
+    else (.error e, { m with n := m.n + 1, errs := m.errs + 1 })
+  | .pass => (.ok m.fs.destMode, { m with n := m.n + 1 })
+  | .appear => (.ok (m.env .appear).fs.destMode, { m.env .appear with n := m.n + 1 })
 
 /-- `_rm_part_on_exc`: best-effort unlink of the part file, errors swallowed -/
 def rmPart (cfg : Cfg) (plan : Plan) (m : M) : M :=
   if cfg.rmPartOnExc then
     let faulted := match plan m.n with | .fail _ => true | _ => false
-    let m1 := (call plan m FS.unlinkPart .unlinkPart).2
+    let m1 := (call plan m .unlinkPart).2
     { m1 with cleanupFaulted := m1.cleanupFaulted || faulted }
   else m
 
 /-- `_open_part_file` after the permissions have been chosen -/
 def openPartFile (cfg : Cfg) (plan : Plan) (m : M) (perms : Nat) (doChmod : Bool) : Option Errno × M :=
-  match call plan m (fun fs => fs.openPart true perms) (.openPart true true perms) with
+  match call plan m (.openPart true true perms) with
   | (some e, m1) => (some e, m1)
   | (none, m1) =>
-    let m1 := { m1 with created := true }
     -- os.fdopen(fd, mode, buffering): no effect on the file system
-    match call plan m1 (fun fs => .ok fs) .noop with
+    match call plan m1 .noop with
     | (some e, m2) =>
       -- except: os.close(fd) / finally: _rm_part_on_exc() / raise
-      let (r3, m3) := call plan m2 FS.closeFd .closeFd
+      let (r3, m3) := call plan m2 .closeFd
       (some (r3.getD e), rmPart cfg plan m3)
     | (none, m2) =>
       if doChmod then
-        match call plan m2 (fun fs => fs.chmodPart perms) (.chmodPart perms) with
+        match call plan m2 (.chmodPart perms) with
         | (some e, m3) =>
+          -- except: self.part_file.close() / finally: _rm_part_on_exc() / raise
           let (r4, m4) := callClose plan m3
           (some (r4.getD e), rmPart cfg plan m4)
         | (none, m3) => (none, m3)
@@ -112,8 +126,8 @@ def openPartFile (cfg : Cfg) (plan : Plan) (m : M) (perms : Nat) (doChmod : Bool
 
 /-- `setup()` = refusal check, removal of a stale part file, `_open_part_file` -/
 def setup (cfg : Cfg) (plan : Plan) (m : M) : Option Errno × M :=
-  if m.fs.dir.dest.isSome && !cfg.overwrite then (some EEXIST, m) else
-  let (r1, m1) := if cfg.overwritePart && m.fs.dir.part.isSome then call plan m FS.unlinkPart .unlinkPart else (none, m)
+  if m.fs.dir.dest.isSome && !cfg.overwrite then (some EEXIST, { m with errs := m.errs + 1 }) else
+  let (r1, m1) := if cfg.overwritePart && m.fs.dir.part.isSome then call plan m .unlinkPart else (none, m)
   match r1 with
   | some e => (some e, m1)
   | none =>
@@ -129,34 +143,39 @@ def setup (cfg : Cfg) (plan : Plan) (m : M) : Option Errno × M :=
 def runWrites (plan : Plan) (m : M) : List (Bytes × Nat) → Option Errno × M
   | [] => (none, m)
   | w :: ws =>
-    match call plan m (fun fs => fs.write w.1 w.2) (.write w.1 w.2) with
+    match call plan m (.write w.1 w.2) with
     | (some e, m1) => (some e, m1)
     | (none, m1) => runWrites plan m1 ws
 
 /-- `atomic_rename(part, dest, overwrite)` inside `__exit__`'s try, with its error handling -/
 def publish (cfg : Cfg) (plan : Plan) (m : M) : Outcome × M :=
   if cfg.overwrite then
-    match call plan m FS.renamePartDest .renamePartDest with
+    match call plan m .renamePartDest with
     | (some e, m1) => (.osErr e, rmPart cfg plan m1)
-    | (none, m1) => (.ok, { m1 with published := true })
+    | (none, m1) => (.ok, m1)
   else
-    match call plan m FS.linkPartDest .linkPartDest with
+    match call plan m .linkPartDest with
     | (some e, m1) => (.osErr e, rmPart cfg plan m1)
     | (none, m1) =>
-      match call plan { m1 with published := true } FS.unlinkPart .unlinkPart with
+      match call plan m1 .unlinkPart with
       | (some e, m2) => (.osErr e, rmPart cfg plan m2)
       | (none, m2) => (.ok, m2)
 
+/-- the inner `try: flush(); fsync() finally: close()` of `__exit__`; the error is the exception
+    leaving it (an exception raised by `close()` in the `finally` clause replaces an earlier one) -/
+def syncClose (plan : Plan) (m : M) : Option Errno × M :=
+  let r1 := call plan m .flush
+  let r2 := match r1.1 with
+    | none => call plan r1.2 .fsync
+    | some _ => (none, r1.2)
+  let r3 := callClose plan r2.2
+  (r3.1 <|> r1.1 <|> r2.1, r3.2)
+
 /-- `__exit__`: `blockExc` is the exception leaving the with-block, if any -/
 def finish (cfg : Cfg) (plan : Plan) (m : M) (blockExc : Option Outcome) : Outcome × M :=
-  let (rf, m1) := call plan m FS.flush .flush
-  let (rs, m2) := match rf with
-    | none => call plan m1 FS.fsync .fsync
-    | some _ => (none, m1)
-  let (rc, m3) := callClose plan m2          -- finally
-  match (rc <|> rf <|> rs) with
-  | some e => (blockExc.getD (.osErr e), rmPart cfg plan m3)
-  | none =>
+  match syncClose plan m with
+  | (some e, m3) => (blockExc.getD (.osErr e), rmPart cfg plan m3)
+  | (none, m3) =>
     match blockExc with
     | some b => (b, rmPart cfg plan m3)
     | none => publish cfg plan m3
@@ -166,11 +185,11 @@ def blockOutcome (body : Body) (rw : Option Errno) : Option Outcome :=
   | some e => some (.osErr e)
   | none => if body.raises then some .bodyExc else none
 
-def M.start (fs : FS) : M := ⟨fs, 0, [], false, false, false, none⟩
+def M.start (fs : FS) (envIno : Nat) : M := ⟨fs, 0, [], 0, false, envIno, false⟩
 
 /-- `with atomic_save(dest, **cfg) as f: body` -/
-def runSave (cfg : Cfg) (body : Body) (plan : Plan) (fs : FS) : Outcome × M :=
-  match setup cfg plan (M.start fs) with
+def runSave (cfg : Cfg) (body : Body) (plan : Plan) (fs : FS) (envIno : Nat) : Outcome × M :=
+  match setup cfg plan (M.start fs envIno) with
   | (some e, m1) => (.osErr e, m1)
   | (none, m1) =>
     let (rw, m2) := runWrites plan m1 body.writes
